@@ -64,6 +64,17 @@ pub fn make_archive_with(ctx: &mut Ctx, max_len: usize, big: bool, force_writer:
             data = v;
         }
     }
+    // one run in 150: two or three chunks that are stored raw and are larger than anything a
+    // single write to a tokio File accepts (2 MiB): fixed size just above 2 MiB, random bytes
+    if !big && gen::chance(1, 150) {
+        let n = (2 << 20) + 1 + gen::draw(1 << 19) as usize;
+        spec.cfg = gen::Cfg::fixed(n);
+        spec.comp = *gen::t(|t| t.pick(&[gen::Comp::None, gen::Comp::None, gen::Comp::Zstd(1)]));
+        let len = n * (1 + gen::draw(2) as usize) + gen::draw(n as u32) as usize;
+        sspec = gen::SourceSpec { kind: "random", len, seed: gen::t(|t| t.seed64()), param: 0 };
+        data = gen::expand(&sspec);
+        simkit::count("probe:raw-chunks-above-2MiB");
+    }
     let source = Arc::new(data);
     let (wname, outcome, archive, sched, short) = compress_with(&spec, &source, writer);
     let desc = json!({"writer": wname, "options": spec.json(), "source": sspec.json(), "schedule": sched, "short_read_pct": short});
